@@ -267,6 +267,14 @@ def oracle_network(case, rec):
     connected = G.is_connected(A)
     if not directed and case.get("heavy"):
         table = table + NET_UNDIRECTED_HEAVY
+    # case-dependent order of the measure table (the same on both objects):
+    # a measure that disturbs shared cached state then precedes its victims
+    # in a share of the cases
+    from vp.pbt import case_hash
+    hk = int(case_hash(case)[:8], 16)
+    table = [table[i] for i in sorted(
+        range(len(table)), key=lambda i: (hk * (2 * i + 1) + 7919 * i)
+        % 1000003)]
     for name, kind, kw in table:
         if "key" in kw and W is None:
             continue
@@ -314,7 +322,12 @@ def oracle_interacting(case, rec):
     par = np.asarray(parents)
     from vp.ref import graph as R
     D = R.path_lengths(A)
-    for name, kind, nargs in INTERACTING:
+    from vp.pbt import case_hash
+    hk = int(case_hash(case)[:8], 16)
+    itable = [INTERACTING[i] for i in sorted(
+        range(len(INTERACTING)), key=lambda i: (hk * (2 * i + 1) + 7919 * i)
+        % 1000003)]
+    for name, kind, nargs in itable:
         for order in (0, 1):
             a1, a2 = (g1, g2) if order == 0 else (g2, g1)
             b1, b2 = (h1, h2) if order == 0 else (h2, h1)
